@@ -100,6 +100,8 @@ type Lifter interface {
 type Exec struct {
 	sc        *scope
 	mergeMark []int // cell-id watermarks of active merged calls
+	TapeIn    []TapeEntry
+	tapePos   int
 	Merged    map[string]int
 	Lemmas    map[string]bool
 	IfConv    int
@@ -237,7 +239,7 @@ func (x *Exec) Branch(cond *smt.Term) bool {
 		x.modelOK = false
 		return true
 	}
-	if x.modelOK {
+	if x.modelOK && os.Getenv("GOSMT_NOMODEL") == "" {
 		// the model of the current path condition decides one side for free
 		v := x.C.Eval(cond, x.model) == 1
 		other := cond
@@ -347,6 +349,9 @@ func (x *Exec) Concretize(t *smt.Term, max int, what string) uint64 {
 		excl = append(excl, x.C.Not(x.C.Eq(t, x.C.BVC(t.Sort.W, v))))
 	}
 	if len(vals) == 0 {
+		if os.Getenv("GOSMT_DEBUG") != "" {
+			fmt.Fprintf(os.Stderr, "CONCRETIZE-INFEASIBLE %s term=%v pcsat=%v npc=%d\n", what, t, x.query(), len(x.pc))
+		}
 		panic(pathEnd{"infeasible"})
 	}
 	if len(vals) > max {
@@ -441,7 +446,7 @@ func (x *Exec) Assert(cond *smt.Term, label string) {
 		return
 	}
 	m := x.fullModel()
-	if x.NewLifter != nil && x.LiftMode != "R" {
+	if x.NewLifter != nil && x.LiftMode == "G" {
 		// the model must also satisfy the unlifted terms under real IEEE
 		// evaluation; otherwise the lifted encoding is wrong for this input
 		for _, t := range append(append([]*smt.Term{}, x.pc...), neg) {
@@ -504,6 +509,7 @@ type Sample struct {
 func (x *Exec) RunPath(fn *ssa.Function, prefix []int) (res *PathResult, forks [][]int, err error) {
 	x.pc = x.pc[:0]
 	x.sc = &scope{prefix: prefix}
+	x.tapePos = 0
 	x.mergeMark = nil
 	x.modelOK = false
 	x.inputs = nil
